@@ -45,7 +45,7 @@ class Prop(core.Prop):
         th = tier == 'thorough'
         return {'t': [1, 2, 3] + ([4, 5] if th else []), 'z': [1, 2],
                 'x': [1, 2, 3, 4],
-                'kinds': [['A', 'M', 'B', 'X', 'Zx', 'S'], ['A', 'M', 'B', 'Zx', 'S']] +
+                'kinds': [['A', 'M', 'B', 'X', 'Zx', 'S'], ['A', 'M', 'B', 'Zx', 'S', 'M0', 'Ch']] +
                          ([['A', 'M', 'B', 'X', 'Zx', 'S', 'Ch', 'M0']] if th else []),
                 'forms': ['method', 'stack_files', 'pncmfopen', 'method-disk'],
                 'multi': 'ordered pairs and triples%s of offset copies with lengths 1..%d along the stack dimension'
@@ -82,6 +82,18 @@ class Prop(core.Prop):
                         for unl in (False, True):
                             yield {'kind': 'multi', 'dim': d, 'kinds': kinds, 'dlens': list(lens_d),
                                    'unl': unl}
+        # the same file given twice (a, b, a): nothing may be de-duplicated
+        for d in ('t', 'z', 'x'):
+            for unl in (False, True):
+                yield {'kind': 'multi', 'dim': d, 'kinds': b['kinds'][0], 'dlens': [1, 2, 1], 'unl': unl,
+                       'repeat': True}
+        # two stackings in one process: the second must not depend on the first (class-level writer state)
+        for d1 in ('t', 'x'):
+            for d2 in ('t', 'z', 'x'):
+                for unl1 in (False, True):
+                    for unl2 in (False, True):
+                        yield {'kind': 'seq', 'dim': d2, 'first_dim': d1, 'first_unl': unl1, 'unl': unl2,
+                               'kinds': b['kinds'][1], 'dlens': [1, 2]}
         # IOAPI files split along TSTEP and stacked again (time flags must come back, too)
         from .. import ioapi_u
         th = tier == 'thorough'
@@ -108,6 +120,13 @@ class Prop(core.Prop):
                     for form in forms:
                         yield {'kind': 'split', 'file': group['file'], 'dim': group['dim'],
                                'pieces': [list(p) for p in comp], 'splitter': splitter, 'form': form}
+        elif group['kind'] == 'seq':
+            for f1 in ('method', 'stack_files', 'pncmfopen'):
+                for form in ('method', 'stack_files', 'pncmfopen'):
+                    yield dict(group, first_form=f1, form=form)
+        elif group.get('repeat'):
+            for form in ('method', 'stack_files', 'pncmfopen'):
+                yield dict(group, form=form)
         else:
             dl = group['dlens']
             for k in range(2, len(dl) + 1):
@@ -137,13 +156,18 @@ class Prop(core.Prop):
             return stack_files(list(reals), d)
         if form == 'pncmfopen':
             paths = []
+            saved = {}
             for i, r in enumerate(reals):
+                if id(r) in saved:
+                    paths.append(saved[id(r)])     # the same file listed again
+                    continue
                 # argument order deliberately differs from lexicographic order
                 p = os.path.join(self.tmp, 'p%d_%d.nc' % (os.getpid(), 9 - i))
                 if os.path.exists(p):
                     os.unlink(p)
                 r.save(p, format='NETCDF4_CLASSIC', verbose=0).close()
                 paths.append(p)
+                saved[id(r)] = p
             return P.pncmfopen(paths, stackdim=d, format='netcdf')
         raise ValueError(form)
 
@@ -203,6 +227,18 @@ class Prop(core.Prop):
             sig = ('split-' + case['splitter'], form)
             scope = dict(form=form, splitter=case['splitter'], npieces=len(case['pieces']), dim=d)
         else:
+            if case['kind'] == 'seq':
+                # an earlier, unrelated stacking in the same process
+                b1 = {'lens': {'t': 2, 'z': 2, 'x': 2}, 'unl': case['first_unl'], 'kinds': case['kinds']}
+                d1 = case['first_dim']
+                firsts = [lib.to_real(offset_file(rfile.ufile(dict(b1, lens=dict(b1['lens'], **{d1: n}))),
+                                                  1000 * i, d1)) for i, n in enumerate((1, 2))]
+                try:
+                    g1 = self._stack(case['first_form'], firsts, d1)
+                    if hasattr(g1, 'close') and case['first_form'] == 'pncmfopen':
+                        g1.close()
+                except Exception:
+                    pass
             base = {'lens': {'t': 2, 'z': 2, 'x': 2}, 'unl': case['unl'], 'kinds': case['kinds']}
             rfs = []
             offs = list(range(len(case['dlens'])))
@@ -212,10 +248,15 @@ class Prop(core.Prop):
                 rec = dict(base, lens=dict(base['lens'], **{d: n}))
                 rfs.append(offset_file(rfile.ufile(rec), 100000 * offs[i], d))
             reals = [lib.to_real(r) for r in rfs]
+            if case.get('repeat'):
+                # (a, b, a): the very same object / path again
+                reals[2] = reals[0]
             pieces_r = [lib.snap(r, cls='PseudoNetCDFFile') for r in reals]
             before = h64(*[rfile.canon(p) for p in pieces_r])
             exp = rops.rstack(pieces_r, d)
-            sig = ('multi', form)
+            sig = ('multi' if case['kind'] == 'multi' else 'after-earlier-stack', form)
+            if case.get('repeat'):
+                sig = ('repeated-file', form)
             scope = dict(form=form, splitter='none', npieces=len(reals), dim=d)
         states = [before] + [rfile.canon(p) for p in pieces_r]
         try:
